@@ -492,7 +492,7 @@ class DatasetProcessor:
             open(fname, "w").close()
 
         if self.args.read_assignments:
-            saves_file = self.args.read_assignments[0]
+            saves_file = sample.file_list[0][0]
             logger.info('Using read assignments from {}*'.format(saves_file))
         else:
             self.collect_reads(sample)
